@@ -300,7 +300,7 @@ func (ci *crdIpam) NodeSubnetsByIPRanges(ipranges [][]nets.IPRange) (sets.String
 	}
 	for i, ranges := range ipranges {
 		poolIndexSet := sets.NewInt()
-		walkIPRanges(ranges, func(ip net.IP) bool {
+		ci.walkConfiguredIPRanges(ranges, func(ip net.IP) bool {
 			ipStr := ip.String()
 			if fip, ok := ci.unallocatedFIPs[ipStr]; !ok {
 				return false
@@ -550,7 +550,7 @@ func (ci *crdIpam) AllocateInSubnetsAndIPRange(key string, nodeSubnet *net.IPNet
 	allocatedIPSet := sets.NewString()
 	for _, ranges := range ipranges {
 		var allocated bool
-		walkIPRanges(ranges, func(ip net.IP) bool {
+		ci.walkConfiguredIPRanges(ranges, func(ip net.IP) bool {
 			ipStr := ip.String()
 			if fip, ok := ci.unallocatedFIPs[ipStr]; !ok || !fip.pool.nodeSubnets.Has(nodeSubnet.String()) ||
 				allocatedIPSet.Has(ipStr) {
@@ -613,7 +613,7 @@ func (ci *crdIpam) ByKeyAndIPRanges(key string, ipranges [][]nets.IPRange) ([]*F
 	if len(ipranges) != 0 {
 		ipinfos = make([]*FloatingIPInfo, len(ipranges))
 		for i, ranges := range ipranges {
-			walkIPRanges(ranges, func(ip net.IP) bool {
+			ci.walkConfiguredIPRanges(ranges, func(ip net.IP) bool {
 				ipStr := ip.String()
 				fip, ok := ci.allocatedFIPs[ipStr]
 				if !ok || fip.Key != key {
@@ -647,6 +647,42 @@ func (ci *crdIpam) toFloatingIPInfo(fip *FloatingIP) *FloatingIPInfo {
 		},
 		FloatingIP:  *fip,
 		NodeSubnets: sets.NewString(fipPool.nodeSubnets.UnsortedList()...),
+	}
+}
+
+// walkConfiguredIPRanges walks the ips of the (requested) ranges which are within the configured pools, in the same
+// order as walkIPRanges does. IPs outside of the configured pools are neither in the allocated nor in the unallocated
+// cache, skipping them avoids walking up to 2^32 addresses of a huge requested range while holding cacheLock.
+// cacheLock must be held by the caller.
+func (ci *crdIpam) walkConfiguredIPRanges(ranges []nets.IPRange, f func(ip net.IP) bool) {
+	for _, r := range ranges {
+		first, last := nets.IPToInt(r.First), nets.IPToInt(r.Last)
+		var parts []nets.IPRange
+		for _, pool := range ci.FloatingIPs {
+			for _, ipr := range pool.IPRanges {
+				lo, hi := nets.IPToInt(ipr.First), nets.IPToInt(ipr.Last)
+				if lo < first {
+					lo = first
+				}
+				if hi > last {
+					hi = last
+				}
+				if lo <= hi {
+					parts = append(parts, nets.IPRange{First: nets.IntToIP(lo), Last: nets.IntToIP(hi)})
+				}
+			}
+		}
+		sort.Slice(parts, func(i, j int) bool {
+			return nets.IPToInt(parts[i].First) < nets.IPToInt(parts[j].First)
+		})
+		stopped := false
+		walkIPRanges(parts, func(ip net.IP) bool {
+			stopped = f(ip)
+			return stopped
+		})
+		if stopped {
+			return
+		}
 	}
 }
 
